@@ -2,7 +2,7 @@
 # usage: try_patch.sh <patch.diff> <ID> [check args...]   - apply to /repo, run the check, always revert
 set -u
 patch=$1; shift
-mkdir -p /verif/dsim/bin; exec 9>/verif/dsim/bin/.repolock; flock -x 9; export VERIF_HOLDS_LOCK=1
+exec 9>/repo/.git/verif-repolock; flock -x 9; export VERIF_HOLDS_LOCK=1
 git -C /repo apply "$patch" || { echo "patch does not apply"; exit 3; }
 trap 'git -C /repo checkout -- . ; git -C /repo status --short | head' EXIT
 /verif/check "$@"
